@@ -41,6 +41,24 @@ Theorem C15_down_after_two : forall up0 a0 evs,
 Proof. exact down_after_two. Qed.
 Print Assumptions C15_down_after_two.
 
+(* 2'. ... and the same when the reader accepts the connections in between: whenever two (or more)
+      attempts have failed since EdgeX was last told Up and since an attempt last ended normally, the
+      state EdgeX holds is Down -- handshakes do not restart the count.  A reader whose every
+      connection breaks (at any point after its connection-success event: during version
+      negotiation, after it, by a time-out of the device) is Down after the second attempt. *)
+Theorem C15_down_after_two_consecutive : forall up0 a0 evs,
+  sdk_ok evs = true ->
+  let s := run (init up0 a0) evs in
+  2 <= fails_consec (log s) -> last_report (st0 up0) (log s) = Down.
+Proof. exact down_after_two_consecutive. Qed.
+Print Assumptions C15_down_after_two_consecutive.
+
+Example C15_down_after_two_consecutive_example :
+  let s := run (init true 1%N) [Dial HandshakeThenDropped; Dial HandshakeThenDropped] in
+  fails_since_hs (log s) = 1 /\ fails_consec (log s) = 2 /\
+  log s = [LDial 1%N; LHandshake; LFail; LDial 1%N; LHandshake; LFail; LReport Down true].
+Proof. vm_compute. repeat split; reflexivity. Qed.
+
 (* 3. Up on reconnect: when an attempt is made and the reader accepts it (good handshake),
       then directly after the handshake the state EdgeX holds is Up: it was Up already, or the
       very next history entry is the successful Up report. *)
